@@ -6,7 +6,7 @@ a dominating test has related to `current`; both children are recursive calls on
 SL2: callers that count models do so on smooth(_, n) with n the number of variables.
 """
 from . import mir
-from .base import inst, OK, VIOLATION, UNDECIDED, strip
+from .base import inst, OK, VIOLATION, UNDECIDED, strip, relation
 from .facts import CheckerError
 from .mir import show
 
@@ -18,46 +18,113 @@ def _is_level_plus_one(t, cur):
     return (t[0] == "bin" and t[1] in ("Add", "AddWithOverflow") and t[2] == cur and t[3][0] == "const" and t[3][2] == "1")
 
 
+def _subst_phi(t, ph, val):
+    if t == ph:
+        return val
+    if not isinstance(t, tuple) or not t:
+        return t
+    if t[0] == "call":
+        return (t[0], t[1], tuple(_subst_phi(a, ph, val) for a in t[2])) + tuple(t[3:])
+    return tuple(_subst_phi(a, ph, val) if isinstance(a, tuple) else a for a in t)
+
+
+def _simplify(t):
+    """project fields of tuple literals: tuple{a, b}.0 = a"""
+    if not isinstance(t, tuple) or not t:
+        return t
+    if t[0] == "call":
+        return (t[0], t[1], tuple(_simplify(a) for a in t[2])) + tuple(t[3:])
+    t = tuple(_simplify(a) if isinstance(a, tuple) else a for a in t)
+    if t[0] == "field" and isinstance(t[1], tuple) and t[1] and t[1][0] == "agg" and t[1][1] == "tuple" and str(t[2]).isdigit() \
+            and int(t[2]) < len(t[1][4]):
+        return t[1][4][int(t[2])]
+    return t
+
+
 def run(prog):
     out = []
     fn = prog.find1(name="smooth_helper", self_adt="builder::bdd::robdd::RobddBuilder", unit="rsdd-lib")
     te = fn.terms
     cur = ("param", 3)
     news = [cs for cs in te.calls if cs.callee.name == "new" and "BddNode" in cs.callee.key()]
-    if len(news) < 2:
-        raise CheckerError("smooth_helper: expected >= 2 node constructions")
-    for i, cs in enumerate(news):
-        lbl, lo, hi = cs.args
+    # one construction may serve several cases: its operands are then joins (φ) of per-case values.  Split it into
+    # one virtual construction per alternative, each with the branch facts of the block the alternative comes from.
+    virt = []
+    for cs in news:
+        phis = {}
+        for a in cs.args:
+            for x in mir.subterms(a):
+                if x[0] == "phi":
+                    phis[x[1]] = x
+        if not phis:
+            virt.append((cs, tuple(cs.args), list(te.facts_at(cs.bb)), True))
+        elif len(phis) == 1:
+            ph = list(phis.values())[0]
+            for pb, val in ph[2]:
+                pbn = int(str(pb).replace("bb", "")) if not isinstance(pb, int) else pb
+                args = tuple(_simplify(_subst_phi(a, ph, val)) for a in cs.args)
+                virt.append((cs, args, list(te.facts_at(cs.bb)) + list(te.facts_at(pbn)), True))
+        else:
+            virt.append((cs, tuple(cs.args), [], False))
+    if len(virt) < 2:
+        out.append(inst("SL", "%s:new" % fn.npath, UNDECIDED, fn, None,
+                        "expected a decision case and a don't-care case among the node constructions, found %d" % len(virt)))
+    used = {}
+    for cs, (lbl, lo, hi), facts, understood in virt:
         errs = []
-        at_level = mir.is_call(strip(lbl), "var_at_level") and strip(lbl)[2][-1] == cur
-        related = False
-        desc = "var_at_level(current)"
-        if not at_level:
-            desc = show(lbl)
-            for c, val, _, d in te.facts_at(cs.bb):
-                if val == "0":
-                    continue
-                if c[0] == "bin" and c[1] == "Eq":
-                    sides = (strip(c[2]), strip(c[3]))
-                    for a, b in (sides, sides[::-1]):
-                        if a == strip(lbl) and mir.is_call(b, "var_at_level") and b[2][-1] == cur:
-                            related = True
-                        if mir.is_call(a, "get") and strip(a[2][-1]) == strip(lbl) and b == cur:
-                            related = True
-            if not related:
-                errs.append("node is labelled %s without any test relating it to level `current`: when the node's "
-                            "level is below `current` the skipped levels are never filled in (and the count is wrong)"
-                            % show(lbl))
+        if not understood:
+            out.append(inst("SL", "%s:new#joined" % fn.npath, UNDECIDED, fn, cs.line, "operands join several cases in a way the rule does not split"))
+            continue
+        lbl_s = strip(lbl)
+        at_level = mir.is_call(lbl_s, "var_at_level") and lbl_s[2][-1] == cur
+        kids = []
         for side, ch in (("low", lo), ("high", hi)):
             c = strip(ch)
             if not (mir.is_call(c, "smooth_helper") and _is_level_plus_one(c[2][2], cur) and c[2][3] == ("param", 4)):
                 errs.append("%s child is not smooth_helper(_, current + 1, total): %s" % (side, show(ch)))
-        if at_level and not errs:
-            l, h = strip(lo), strip(hi)
-            if l[2][1] != h[2][1]:
+                kids.append(None)
+            else:
+                kids.append(strip(c[2][1]))
+        # which case is this: the two children of one existing node, or the same diagram twice
+        node = None
+        if kids[0] is not None and kids[1] is not None and kids[0][0] == "field" and kids[1][0] == "field" and \
+                kids[0][2] == "low" and kids[1][2] == "high" and kids[0][1] == kids[1][1]:
+            node = kids[0][1]
+        decision = node is not None or (not at_level)
+        desc = "var_at_level(current)" if at_level else show(lbl)
+        if decision:
+            nv = ("field", node, "var") if node is not None else None
+            related = False
+            for c, val, _, d in facts:
+                if val == "0":
+                    continue
+                c = strip(c)
+                if c[0] == "bin" and c[1] == "Eq":
+                    sides = (strip(c[2]), strip(c[3]))
+                    for a, b in (sides, sides[::-1]):
+                        is_nv = (a == lbl_s and not at_level) or (nv is not None and a[0] == "field" and a[1] == nv[1] and a[2] == "var")
+                        if is_nv and mir.is_call(b, "var_at_level") and b[2][-1] == cur:
+                            related = True
+                        if mir.is_call(a, "get") and b == cur:
+                            g = strip(a[2][-1])
+                            if (g == lbl_s and not at_level) or (nv is not None and g[0] == "field" and g[1] == nv[1] and g[2] == "var"):
+                                related = True
+            if not at_level and node is not None and not (lbl_s[0] == "field" and lbl_s[1] == node and lbl_s[2] == "var"):
+                errs.append("node is labelled %s but its children are those of %s" % (show(lbl), show(node)[:40]))
+            if not at_level and node is None and kids[0] is not None and kids[1] is not None:
+                errs.append("a node labelled %s must have the smoothed low and high child of that node as its children, found "
+                            "%s and %s" % (show(lbl)[:40], show(kids[0])[:40], show(kids[1])[:40]))
+            if not related:
+                errs.append("node is labelled %s without any test relating it to level `current`: when the node's "
+                            "level is below `current` the skipped levels are never filled in (and the count is wrong)"
+                            % show(lbl))
+        else:
+            if kids[0] is not None and kids[1] is not None and kids[0] != kids[1]:
                 errs.append("don't-care node has different children")
-        arm = "level-var" if at_level else "node-var"
-        out.append(inst("SL", "%s:new#%s" % (fn.npath, arm), VIOLATION if errs else OK, fn, cs.line,
+        arm = "node-var" if decision else "level-var"
+        used[arm] = used.get(arm, 0) + 1
+        out.append(inst("SL", "%s:new#%s%s" % (fn.npath, arm, "" if used[arm] == 1 else "#%d" % used[arm]),
+                        VIOLATION if errs else OK, fn, cs.line,
                         "; ".join(errs) if errs else "label %s, children one level down" % desc))
     # SL3: the argument is returned unchanged only once every level has been handled
     alts = []
@@ -82,10 +149,8 @@ def run(prog):
         done = False
         facts = [(c, val) for c, val, _, d in te.facts_at(pb if isinstance(pb, int) and pb >= 0 else 0)] + conds
         for c, val in facts:
-            c = strip(c)
-            if c[0] == "bin" and c[1] in ("Ge", "Gt", "Eq") and strip(c[2]) == cur and strip(c[3]) == ("param", 4) and val != "0":
-                done = True
-            if c[0] == "bin" and c[1] in ("Lt", "Le") and strip(c[2]) == cur and strip(c[3]) == ("param", 4) and val == "0":
+            r = relation(c, val, cur)
+            if r and r[0] in ("Ge", "Gt", "Eq") and r[1] == ("param", 4):
                 done = True
         out.append(inst("SL", "%s:return-as-is" % fn.npath + ("" if n_asis == 1 else "#%d" % n_asis), OK if done else VIOLATION, fn, None,
                         "the diagram is returned unchanged only when current >= total" if done else
